@@ -901,5 +901,161 @@ theorem call_accepted (es : List TEvent) (t : Int) (s : Fw σ) (hok : (triggerEv
   rw [this]
   simp only [checkLog]
 
+/-! ### what an accepted log says, in plain terms -/
+
+/-- the tracked state map after a sampled entry -/
+def stAfter (st : Nat → Nat) (mi next : Nat) : Nat → Nat :=
+  if isRegular next then upd st mi next else if next == STATE_END then upd st mi STATE_END else st
+
+/-- the maps (limits, states) the monitor holds after walking a prefix -/
+def after : (Nat → Nat) × (Nat → Nat) → List LogEntry → (Nat → Nat) × (Nat → Nat)
+  | f, [] => f
+  | f, .sampled mi _ next :: rest => after (f.1, stAfter f.2 mi next) rest
+  | f, .limit mi v _ :: rest => after (upd f.1 mi v, f.2) rest
+  | f, .trans .. :: rest => after f rest
+  | f, .draw _ :: rest => after f rest
+  | f, .distRaw _ :: rest => after f rest
+  | f, .counter .. :: rest => after f rest
+
+/-- an accepted decrement: the logged value is the tracked limit minus one (0 stays 0), the
+    LimitReached delivery to the machine follows directly iff the value is 0 in a state whose action
+    carries a limit, and the rest is accepted with the updated limit -/
+theorem checkLog_limitT_none (ms : List Machine) (lim st : Nat → Nat) (lt : LT) (mi v : Nat) (rest : List LogEntry)
+    (h : checkLog ms lim st lt (.limit mi v true :: rest) = none) :
+    v = (if lim mi > 0 then lim mi - 1 else 0) ∧ nextLR mi rest = (v == 0 && hasLimitAt ms mi (st mi)) ∧
+    checkLog ms (upd lim mi v) st lt rest = none := by
+  rw [checkLog_limitT] at h
+  generalize (v == 0 && hasLimitAt ms mi (st mi)) = reached at h ⊢
+  generalize nextLR mi rest = nx at h ⊢
+  generalize (if lim mi > 0 then lim mi - 1 else 0) = ex at h ⊢
+  by_cases h1 : (v != ex) = true
+  · rw [if_pos h1] at h; cases h
+  · rw [if_neg h1] at h
+    by_cases h2 : (reached && !nx) = true
+    · rw [if_pos h2] at h; cases h
+    · rw [if_neg h2] at h
+      by_cases h3 : (!reached && nx) = true
+      · rw [if_pos h3] at h; cases h
+      · rw [if_neg h3] at h
+        refine ⟨by simpa using h1, ?_, h⟩
+        cases reached <;> cases nx <;> simp_all
+
+/-- an accepted sampled state: for a regular target, a limit assignment for the machine follows
+    directly (possibly after one distribution draw) iff the target differs from the tracked state;
+    the rest is accepted with the updated state -/
+theorem checkLog_sampled_none (ms : List Machine) (lim st : Nat → Nat) (lt : LT) (mi ev next : Nat)
+    (rest : List LogEntry) (h : checkLog ms lim st lt (.sampled mi ev next :: rest) = none) :
+    (isRegular next = true → followsB mi rest = (next != st mi)) ∧
+    checkLog ms lim (stAfter st mi next) lt rest = none := by
+  rw [checkLog_sampled] at h
+  unfold stAfter
+  generalize followsB mi rest = fl at h ⊢
+  by_cases hreg : isRegular next = true
+  · rw [if_pos hreg] at h
+    simp only [hreg, if_true]
+    by_cases h2 : (next != st mi && !fl) = true
+    · rw [if_pos h2] at h; cases h
+    · rw [if_neg h2] at h
+      by_cases h3 : (next == st mi && fl) = true
+      · rw [if_pos h3] at h; cases h
+      · rw [if_neg h3] at h
+        refine ⟨fun _ => ?_, h⟩
+        cases fl <;> cases hc : (next != st mi) <;> simp_all
+  · rw [if_neg hreg] at h
+    refine ⟨fun h' => absurd h' hreg, ?_⟩
+    simp only [hreg, Bool.false_eq_true, if_false]
+    split
+    · next he => rw [if_pos he] at h; exact h
+    · next he => rw [if_neg he] at h; exact h
+
+/-- an accepted log is accepted from every split point, with the maps held there -/
+theorem checkLog_split (ms : List Machine) (pre rest : List LogEntry) :
+    ∀ (lim st : Nat → Nat) (lt : LT), checkLog ms lim st lt (pre ++ rest) = none →
+      checkLog ms (after (lim, st) pre).1 (after (lim, st) pre).2 lt rest = none := by
+  induction pre with
+  | nil => intro lim st lt h; exact h
+  | cons e pre ih =>
+    intro lim st lt h
+    cases e with
+    | trans mi ev s =>
+      rw [List.cons_append, checkLog_trans, checkLog_lt ms _ _ _ _ lt] at h
+      exact ih lim st lt h
+    | draw b => rw [List.cons_append, checkLog_draw] at h; exact ih lim st lt h
+    | distRaw b => rw [List.cons_append, checkLog_distRaw] at h; exact ih lim st lt h
+    | counter mi a b c d => rw [List.cons_append, checkLog_counter] at h; exact ih lim st lt h
+    | sampled mi ev next => exact ih lim _ lt (checkLog_sampled_none ms lim st lt mi ev next _ h).2
+    | limit mi v d =>
+      cases d with
+      | false => rw [List.cons_append, checkLog_limitF] at h; exact ih _ st lt h
+      | true => exact ih _ st lt (checkLog_limitT_none ms lim st lt mi v _ h).2.2
+
+theorem nextLR_iff (mi : Nat) (rest : List LogEntry) :
+    nextLR mi rest = true ↔ ∃ st rest', rest = .trans mi Gen.EV_LimitReached st :: rest' := by
+  cases rest with
+  | nil => simp [nextLR]
+  | cons b r =>
+    cases b with
+    | trans m ev st =>
+      simp only [nextLR, Bool.and_eq_true, beq_iff_eq, List.cons.injEq, LogEntry.trans.injEq]
+      constructor
+      · rintro ⟨rfl, rfl⟩; exact ⟨st, r, ⟨rfl, rfl, rfl⟩, rfl⟩
+      · rintro ⟨st', r', ⟨h1, h2, _⟩, _⟩; exact ⟨h1, h2⟩
+    | _ => simp [nextLR]
+
+theorem followsB_iff (mi : Nat) (rest : List LogEntry) :
+    followsB mi rest = true ↔
+      (∃ x rest', rest = .limit mi x false :: rest') ∨ (∃ b x rest', rest = .distRaw b :: .limit mi x false :: rest') := by
+  cases rest with
+  | nil => simp [followsB]
+  | cons b r =>
+    cases b with
+    | limit m v d =>
+      cases d with
+      | false =>
+        simp only [followsB, beq_iff_eq]
+        constructor
+        · rintro rfl; exact Or.inl ⟨v, r, rfl⟩
+        · rintro (⟨x, r', h⟩ | ⟨b, x, r', h⟩)
+          · simp only [List.cons.injEq, LogEntry.limit.injEq] at h; exact h.1.1
+          · cases h
+      | true =>
+        simp only [followsB]
+        constructor
+        · intro h; cases h
+        · rintro (⟨x, r', h⟩ | ⟨b, x, r', h⟩) <;> cases h
+    | distRaw x =>
+      cases r with
+      | nil =>
+        simp only [followsB]
+        constructor
+        · intro h; cases h
+        · rintro (⟨x, r', h⟩ | ⟨b, x, r', h⟩) <;> cases h
+      | cons b2 r2 =>
+        cases b2 with
+        | limit m v d =>
+          cases d with
+          | false =>
+            simp only [followsB, beq_iff_eq]
+            constructor
+            · rintro rfl; exact Or.inr ⟨x, v, r2, rfl⟩
+            · rintro (⟨x', r', h⟩ | ⟨b, x', r', h⟩)
+              · cases h
+              · simp only [List.cons.injEq, LogEntry.limit.injEq] at h; exact h.2.1.1
+          | true =>
+            simp only [followsB]
+            constructor
+            · intro h; cases h
+            · rintro (⟨x', r', h⟩ | ⟨b, x', r', h⟩) <;> cases h
+        | _ =>
+          simp only [followsB]
+          constructor
+          · intro h; cases h
+          · rintro (⟨x', r', h⟩ | ⟨b, x', r', h⟩) <;> cases h
+    | _ =>
+      simp only [followsB]
+      constructor
+      · intro h; cases h
+      · rintro (⟨x', r', h⟩ | ⟨b, x', r', h⟩) <;> cases h
+
 end LL
 end Mb
